@@ -25,6 +25,14 @@ def decode_template(bs):
             parts.append(("arg", argi))
             argi += 1
             i += 1
+        elif b == 0x80:
+            n = bs[i + 1] | (bs[i + 2] << 8)          # long literal: u16 little-endian length
+            lit = bs[i + 3:i + 3 + n]
+            try:
+                parts.append(("lit", lit.decode("utf-8")))
+            except UnicodeDecodeError:
+                return None
+            i += 3 + n
         elif b < 0x80:
             lit = bs[i + 1:i + 1 + b]
             try:
@@ -41,7 +49,8 @@ def format_parts(body, e):
     """e: E for a String produced by format!().  Returns [('lit', s)|('val', E)] or None."""
     e = strip_refs(e)
     # must_use(format(Arguments::new(template, &[Argument::new_display(&v)...])))
-    while e.k == "call" and (e.a[0].endswith("hint::must_use") or e.a[0].endswith("fmt::format")):
+    while e.k == "call" and len(e.a[1]) >= 1 and (e.a[0].endswith("hint::must_use") or e.a[0].endswith("fmt::format") or
+                                                   (len(e.a[1]) == 1 and any(e.a[0].endswith(s_) for s_ in ("::deref", "::as_str", "::clone", "::as_ref", "::borrow")))):
         e = strip_refs(e.a[1][0])
     if e.k != "call":
         return None
